@@ -9,7 +9,7 @@ import z3
 from ..values import Obj, Opaque, SBytes, SDict, SList, Guarded, Undefined, TimerRec
 from ..interp import TRUE, FALSE
 from ..runner import vc
-from ..ilv import Ilv, IntS, BoolS, TokS, MapS, ListS, SetS, RecS
+from ..ilv import Ilv, IntS, BoolS, TokS, MapS, ListS, SetS, RecS, RefS
 from ..ilvreplay import Scheduler, gate_object, run_schedule
 from ..gnharness import real_router
 
@@ -1137,3 +1137,85 @@ def ls_two_replies(ctx):
     no_deadlock(ctx, il, "X3f", hang=_ls_reply_hangs(il, st))
     bounds_ok(ctx, il, "X3f")
     note_blocks(ctx, il, "gn_data_indicate_ls_reply || gn_data_indicate_ls_reply (same sought station)")
+
+
+# ---------------------------------------------------------------------------------------------- X6 location table under concurrent receptions
+from flexstack.geonet.location_table import LocationTable
+
+
+@vc("C15", "X6-location-table-concurrent-receptions")
+def loct_concurrent(ctx):
+    """two frames from two stations the table does not know yet are processed at the same time (each: insert the source, update it, refresh the
+    table): afterwards both sources - and a third one that was already known - are in the table, and no thread failed"""
+    from .c08 import sym_entry, time_stub, clock_ms, P32
+    from flexstack.geonet.mib import MIB
+    from flexstack.utils.time_service import TimeService, ITS_EPOCH, ELAPSED_SECONDS
+    st = {}
+    addrs = [GNAddress(m=M.GN_UNICAST, st=ST.PASSENGER_CAR, mid=MID(bytes([i + 1] * 6))) for i in range(3)]
+
+    def build(E):
+        mib = MIB()
+        T = LocationTable(mib)
+        To = E.lift(T)
+        now = time_stub(E)
+        ents = []
+        for i, nm in enumerate(("known", "first", "second")):
+            e = sym_entry(E, nm, mib)
+            e.fields["position_vector"].fields["gn_addr"] = addrs[i]
+            ents.append(e)
+            # every position timestamp is fresh: expiry is C08's subject, here nothing may disappear
+            cur = clock_ms(z3.ToInt(now))
+            E.assumptions.append((cur - e.fields["position_vector"].fields["tst"].fields["msec"]) % P32 <= mib.itsGnLifetimeLocTE * 1000 - 2000)
+        known = z3.Bool("third_station_known")
+        To.fields["loc_t"] = SDict([(known, addrs[0], ents[0], False)])
+        E.share(To, "loc_t", MapS(addrs, RefS(ents)), "loc_t_lock")
+        # the entry a reception creates for an unknown source is the pre-built one of that actor
+        E.stubs[LocationTableEntry] = lambda it, a, k, pc: {"rx1": ents[1], "rx2": ents[2]}[it.cur_thread]
+        E.stubs[LocationTableEntry.update_with_shb_packet] = lambda it, a, k, pc: None          # the entry's own update: C08
+        st.update(T=T, To=To, ents=ents, known=known, now=now)
+        pvs = [ents[1].fields["position_vector"], ents[2].fields["position_vector"]]
+        return dict(threads=[("rx1", LocationTable.new_shb_packet, [To, pvs[0], b"P1"]), ("rx2", LocationTable.new_shb_packet, [To, pvs[1], b"P2"])],
+                    locks=[T.loc_t_lock], lock_names=["loc_t_lock"])
+    il = Ilv(build).run()
+    il.cons = il.encode()
+    fin = il.final(st["To"], "loc_t")          # per key: present, entry index
+    names = ("rx1", "rx2")
+    exc = z3.Or(*[c for nm in names for c, k in il.rets[nm][1]]) if any(il.rets[nm][1] for nm in names) else FALSE
+    vars_ = {"third_station_known": st["known"]}
+
+    def replay(vals):
+        from unittest import mock
+        import dataclasses as dc
+        mib = MIB()
+        T = LocationTable(mib)
+        now_s = 1.7e9
+        tst_ms = int(((int(now_s) - ITS_EPOCH + ELAPSED_SECONDS) * 1000) % 2 ** 32)
+        from flexstack.geonet.position_vector import TST as TST_
+        pv = lambda a: dc.replace(LongPositionVector(), gn_addr=a, tst=TST_(msec=tst_ms - 1000))
+        if vals["third_station_known"]:
+            e0 = LocationTableEntry(mib)
+            e0.position_vector = pv(addrs[0])
+            T.loc_t[addrs[0]] = e0
+        sched = Scheduler(vals["schedule"])
+        gate_object(T, {"loc_t": "loc_t_lock"}, sched, il.und_names)
+        with mock.patch.object(TimeService, "time", staticmethod(lambda: now_s)):
+            res, sched = run_schedule(vals["schedule"], {"rx1": lambda: T.new_shb_packet(pv(addrs[1]), b"P1"), "rx2": lambda: T.new_shb_packet(pv(addrs[2]), b"P2")}, sched)
+        if sched.failed:
+            return False, "replay scheduler: " + sched.failed
+        bad = [f"{n} raised {r[1]!r}" for n, r in res.items() if r[0] == "raised"]
+        table = object.__getattribute__(T, "loc_t")
+        for i, what in ((1, "source of the first frame"), (2, "source of the second frame")) + (((0, "station known before"),) if vals["third_station_known"] else ()):
+            if addrs[i] not in table:
+                bad.append(f"{what} is not in the location table afterwards")
+        return bool(bad), "two concurrent receptions from unknown stations: " + ("; ".join(bad) or "ok") + f" (switch points {sched.trace})"
+    feasible(ctx, il, "X6-some-schedule")
+    solve(ctx, il, "X6-no-exception", exc, vars=vars_, replay=replay)
+    solve(ctx, il, "X6-both-sources-in-the-table", z3.Not(z3.And(fin[2], fin[4])), vars=vars_, replay=replay,
+          desc="the location-table entry created by one reception is not lost to the table refresh of the other")
+    solve(ctx, il, "X6-known-station-kept", z3.And(st["known"], z3.Not(fin[0])), vars=vars_, replay=replay)
+    no_deadlock(ctx, il, "X6")
+    bounds_ok(ctx, il, "X6")
+    note_blocks(ctx, il, "LocationTable.new_shb_packet || LocationTable.new_shb_packet (two unknown sources)")
+    ctx.bound("three stations (one possibly known before), all position timestamps within the entry lifetime; the in-place mutation of a dict that another thread "
+              "iterates (RuntimeError in CPython) is not modelled - the lost update it goes with is")
+    ctx.stub("LocationTableEntry() returns the actor's pre-built entry; LocationTableEntry.update_with_shb_packet is a no-op here (C08); TimeService.time one symbolic instant")
